@@ -174,81 +174,58 @@ def graph(r):
 
 
 def cover_edges(nodes, edges, inits, max_len=40, max_behaviours=None):
-    """A set of behaviours (paths from an initial state) covering every edge of the state graph at
-    least once.  Self loops with identical states (stuttering) are skipped."""
+    """A set of behaviours (paths from an initial state) covering every edge of the state graph at least once.
+    Self loops (stuttering) and parallel edges are skipped.  O(E * depth): BFS tree from the initial states; edges are
+    taken deepest-source first, each as tree-path(source) + edge, then extended greedily along uncovered edges."""
     out = {}
-    for idx, (u, v, lab) in enumerate(edges):
-        if u == v:
-            continue
-        out.setdefault(u, []).append((v, idx))
-    uncovered = set(i for i, (u, v, _) in enumerate(edges) if u != v)
-    # de-duplicate parallel edges (same u, v)
     seen = set()
-    for i in sorted(uncovered):
-        u, v, _ = edges[i]
-        if (u, v) in seen:
-            uncovered.discard(i)
+    elist = []
+    for (u, v, lab) in edges:
+        if u == v or (u, v) in seen:
+            continue
         seen.add((u, v))
+        out.setdefault(u, []).append(v)
+        elist.append((u, v))
+    parent, depth = {}, {}
+    dq = deque()
+    for i0 in inits:
+        parent[i0] = None
+        depth[i0] = 0
+        dq.append(i0)
+    while dq:
+        x = dq.popleft()
+        for y in out.get(x, ()):
+            if y not in parent:
+                parent[y] = x
+                depth[y] = depth[x] + 1
+                dq.append(y)
+    uncovered = set(e for e in elist if e[0] in parent)
+    unreachable = len(elist) - len(uncovered)
     behaviours = []
-
-    def nearest(cur, budget):
-        # BFS to the nearest node having an uncovered out edge; returns list of nodes after cur
-        if any(i in uncovered for _, i in out.get(cur, ())):
-            return []
-        prev = {cur: None}
-        dq = deque([(cur, 0)])
-        while dq:
-            x, dist = dq.popleft()
-            if dist >= budget:
-                continue
-            for (y, i) in out.get(x, ()):
-                if y in prev:
-                    continue
-                prev[y] = x
-                if any(j in uncovered for _, j in out.get(y, ())):
-                    path = [y]
-                    while prev[path[-1]] != cur:
-                        path.append(prev[path[-1]])
-                    return list(reversed(path))
-                dq.append((y, dist + 1))
-        return None
-
-    guard = 0
-    while uncovered:
-        guard += 1
-        progressed = False
-        for init in inits:
-            cur, path, new = init, [init], 0
-            while len(path) < max_len:
-                hop = nearest(cur, max_len - len(path))
-                if hop is None:
+    for (u, v) in sorted(uncovered, key=lambda e: -depth[e[0]]):
+        if (u, v) not in uncovered:
+            continue
+        path = [u]
+        while parent[path[-1]] is not None:
+            path.append(parent[path[-1]])
+        path.reverse()
+        for a, b in zip(path, path[1:]):
+            uncovered.discard((a, b))
+        path.append(v)
+        uncovered.discard((u, v))
+        cur = v
+        while len(path) < max_len:
+            nxt = None
+            for y in out.get(cur, ()):
+                if (cur, y) in uncovered:
+                    nxt = y
                     break
-                for y in hop:
-                    # mark traversed edges covered too
-                    for (v, i) in out.get(cur, ()):
-                        if v == y and i in uncovered:
-                            uncovered.discard(i)
-                            new += 1
-                    path.append(y)
-                    cur = y
-                if len(path) >= max_len:
-                    break
-                nxt = None
-                for (v, i) in out.get(cur, ()):
-                    if i in uncovered:
-                        nxt = (v, i)
-                        break
-                if nxt is None:
-                    continue
-                uncovered.discard(nxt[1])
-                new += 1
-                path.append(nxt[0])
-                cur = nxt[0]
-            if new:
-                behaviours.append(path)
-                progressed = True
-            if max_behaviours and len(behaviours) >= max_behaviours:
-                return [[nodes[x] for x in p] for p in behaviours], len(uncovered)
-        if not progressed:
+            if nxt is None:
+                break
+            uncovered.discard((cur, nxt))
+            path.append(nxt)
+            cur = nxt
+        behaviours.append(path)
+        if max_behaviours and len(behaviours) >= max_behaviours:
             break
-    return [[nodes[x] for x in p] for p in behaviours], len(uncovered)
+    return [[nodes[x] for x in p] for p in behaviours], len(uncovered) + unreachable
